@@ -72,6 +72,10 @@ CHECKS = {
                 technique="boundary-alphabet products + model-constructed exceptional-case families + total small-group ECDH enumeration, lock-step XSwiftEC / ECDH reference models",
                 text="ellswift_decode on an alphabet of 79 field values squared plus model-built inputs for every exceptional family (u^3+t^2+7 = 0 from u and from t, t = 0, u^3 = -8, X = 0) with all three x1/x2/x3 branches selected; the inverse map for every branch c in 0..7 incl. s = 0, r = 0, u = -2x; encode / create for every branch and both parities with decode(encode) = key; ECDH over SC x points x hash choices (default, sha256, custom copy, failing) and xdh for both roles x 4 hashes cross-checked against ECDH on the decoded keys; in the order-13 build ECDH, the x-only ladder and create/decode/xdh are enumerated totally (every secret encoding incl. overflow encodings x every point). Models are self-tested on the BIP-324 and Wycheproof vectors shipped in the tree.",
                 note="The ElligatorSwift map lives in the real field: alphabets and families only, the small groups do not make it enumerable. Encoding bytes are not part of the verdict (the header says they are not stable); decode(encoding) = key is."),
+    "C17": dict(level=MC, design="§4 C17",
+                technique="all compositions + transition closure from the canonical aggregator state + boundary / single-mutation enumeration + total small-group enumeration incl. s+kN re-encodings, lock-step draft-spec model",
+                text="For n in 0..8 every composition n = n1+...+nk of incremental aggregation equals one-shot aggregation and the model byte for byte; every (n_before, n_new) transition from the canonical state for n <= 64 closes all splits by induction; buffer lengths from 0 to 32(n+2); aggverify on honest aggregates, reordered keys / messages, one altered signature, every bit flip (n <= 3), r_i >= p / off-curve, s <- n / 2^256-1, wrong lengths, size_t-wrapping n_before+n_new; in the order-13 build all keys x challenge-covering messages x n <= 3 are aggregated and every s encoding s+13k and every s in Z_13 is decided by the model equation (the only place a dropped s >= n rejection shows for n >= 1).",
+                note="On secp256k1 r_i+p / s+n re-encodings of a valid aggregate with n >= 1 do not exist; only two fixed key/message data sets are used there."),
 }
 
 NOT_YET = "check not built yet in this round (work in progress; see DESIGN.md section 4 for the planned exploration)"
